@@ -6,6 +6,7 @@ import (
 	"sync"
 
 	"github.com/goplus/llgo/internal/build"
+	"github.com/goplus/llgo/internal/cabi"
 	"github.com/xgo-dev/llvm"
 )
 
@@ -26,11 +27,17 @@ func BuildModules(dir string, patterns []string, wanted map[string]bool, withTex
 	os.Setenv("LLGO_BUILD_CACHE", "0")
 	mods = map[string]*Module{}
 	conf := build.NewDefaultConf(build.ModeGen)
-	conf.AbiMode = build.AbiMode(abiMode)
+	conf.AbiMode = build.AbiMode(0) // the transformation is applied in the hook below when requested
 	remaining := len(wanted)
 	conf.ModuleHook = func(p build.Package) {
 		if !wanted[p.PkgPath] || mods[p.PkgPath] != nil {
 			return
+		}
+		if abiMode > 0 {
+			// what build.Do itself does right after the hook: the C-ABI
+			// transformation of the module (default mode: all functions)
+			tr := cabi.NewTransformer(p.LPkg.Prog, "", "", cabi.Mode(abiMode), true)
+			tr.TransformModule(p.LPkg.Path(), p.LPkg.Module())
 		}
 		mods[p.PkgPath] = Convert(p.LPkg.Module(), p.PkgPath, withText)
 		remaining--
